@@ -156,9 +156,14 @@ class CfUsb:
         """ Send a packet and receive the ack from the radio dongle
             The ack contains information about the packet transmission
             and a data payload if the ack packet contained any """
+        handle = self.handle
+        dev = self.dev
+        if handle is None or dev is None:
+            # Closed by another thread in the meantime
+            return
         try:
-            self.handle.write(endpoint=1, data=dataOut, timeout=20)
-            self._log_packet(False, self.dev.port_number, dataOut)
+            handle.write(endpoint=1, data=dataOut, timeout=20)
+            self._log_packet(False, dev.port_number, dataOut)
         except usb.USBError:
             pass
 
